@@ -38,6 +38,7 @@ ARITH = ("add", "sub", "mul", "truediv", "floordiv", "mod")
 CMP = ("eq", "ne", "lt", "le", "gt", "ge")
 ISOPS = ("is", "isnot", "isdistinct", "isnotdistinct")
 LIKES = ("like", "notlike", "ilike", "notilike")
+STROPS = ("contains", "startswith", "endswith", "icontains", "istartswith", "iendswith")
 BINOPS = ARITH + ("concat",) + CMP + ISOPS
 
 DIALECTS = ("sqlite", "postgresql", "mysql", "mariadb", "default")
@@ -48,8 +49,10 @@ def utype(u):
     k = u[0]
     if k == "col":
         return COLS[u[1]]
-    if k == "li":
+    if k in ("li", "pi"):
         return "int"
+    if k == "ps":
+        return "str"
     if k == "ln":
         return "num"
     if k == "ls":
@@ -72,7 +75,7 @@ def utype(u):
         return utype(u[1])
     if k == "concat":
         return "str"
-    if k in CMP or k in ISOPS or k in LIKES or k in ("between", "and", "or", "not", "in", "notin", "tin", "tnotin"):
+    if k in CMP or k in ISOPS or k in LIKES or k in STROPS or k in ("between", "and", "or", "not", "in", "notin", "tin", "tnotin"):
         return "bool"
     if k == "case":
         for _, r in u[2]:
@@ -91,11 +94,11 @@ def utype(u):
 
 def children(u):
     k = u[0]
-    if k in ("col", "li", "ln", "ls", "lb", "null", "true", "false"):
+    if k in ("col", "li", "ln", "ls", "lb", "null", "true", "false", "pi", "ps"):
         return []
     if k in BINOPS:
         return [u[1], u[2]]
-    if k in LIKES:
+    if k in LIKES or k in STROPS:
         return [u[1], u[2]]
     if k in ("neg", "not", "subq"):
         return [u[1]]
@@ -205,6 +208,8 @@ def to_sa(u, neutral=None):
         return to_sa(c, neutral)
 
     def opd(pos):
+        if u[pos][0] in ("pi", "ps"):
+            return u[pos][1]  # a plain Python value: coerced by the operator implementation
         e = to_sa(u[pos], neutral)
         if neutral is not None:
             e = neutral.operand(k, pos, u[pos], e, u)
@@ -266,6 +271,10 @@ def to_sa(u, neutral=None):
         a, b = opd(1), opd(2)
         kw = {} if u[3] is None else {"escape": u[3]}
         return {"like": a.like, "notlike": a.not_like, "ilike": a.ilike, "notilike": a.not_ilike}[k](b, **kw)
+    if k in STROPS:
+        a, b = opd(1), opd(2)
+        kw = {} if u[3] is None else {"escape": u[3]}
+        return getattr(a, k)(b, **kw)
     if k == "neg":
         return -opd(1)
     if k == "not":
@@ -392,8 +401,10 @@ def ref_sql(u):
     r = ref_sql
     if k == "col":
         return u[1]
-    if k == "li":
+    if k in ("li", "pi"):
         return sql_val(int(u[1]))
+    if k == "ps":
+        return sql_str(u[1])
     if k == "ln":
         return u[1] if not u[1].startswith("-") else "(%s)" % u[1]
     if k == "ls":
@@ -438,6 +449,14 @@ def ref_sql(u):
         esc = "" if u[3] is None else " ESCAPE " + sql_str(u[3])
         core = "(%s LIKE %s%s)" % (a, b, esc)
         return core if k in ("like", "ilike") else "(NOT %s)" % core
+    if k in STROPS:
+        a, b = r(u[1]), r(u[2])
+        if k.startswith("i"):
+            a, b = "lower(%s)" % a, "lower(%s)" % b
+        base = k.lstrip("i") if k.startswith("i") else k
+        pat = {"contains": "('%%' || %s || '%%')", "startswith": "(%s || '%%')", "endswith": "('%%' || %s)"}[base] % b
+        esc = "" if u[3] is None else " ESCAPE " + sql_str(u[3])
+        return "(%s LIKE %s%s)" % (a, pat, esc)
     if k == "not":
         return "(NOT %s)" % r(u[1])
     if k == "between":
@@ -495,6 +514,10 @@ def wire(u):
         return ["col", u[1], COLS[u[1]]]
     if k == "li":
         return ["li", str(int(u[1]))]
+    if k == "pi":
+        return ["pi", str(int(u[1]))]
+    if k == "ps":
+        return ["ps", enc_str(u[1])]
     if k == "ln":
         return ["ln", enc_str(u[1])]
     if k == "ls":
@@ -505,7 +528,7 @@ def wire(u):
         return [k]
     if k in BINOPS:
         return [k] + wire(u[1]) + wire(u[2])
-    if k in LIKES:
+    if k in LIKES or k in STROPS:
         return [k, "N" if u[3] is None else enc_str(u[3])] + wire(u[1]) + wire(u[2])
     if k in ("neg", "not", "subq"):
         return [k] + wire(u[1])
@@ -703,7 +726,7 @@ def sa_str_typed(u):
     k = u[0]
     if k == "col":
         return COLS[u[1]] == "str"
-    if k == "ls":
+    if k in ("ls", "ps"):
         return True
     if k == "add":
         return sa_str_typed(u[1]) and sa_str_typed(u[2])
@@ -767,7 +790,15 @@ class TreeGen:
             k = self.pick([(10, "add"), (10, "sub"), (10, "mul"), (6, "floordiv"), (6, "mod"), (7, "neg"),
                            (3, "case"), (3, "cast"), (2, "coalesce"), (2, "subq")])
             if k in ("add", "sub", "mul", "floordiv", "mod"):
-                return [k, self.expr("int", d), self.expr("int", d)]
+                a, b = self.expr("int", d), self.expr("int", d)
+                x = r.random()
+                if x < 0.12:
+                    b = ["pi", r.choice(INT_LITS)]     # col <op> 5
+                elif x < 0.24 and a[0] not in ("li",):
+                    a, b = ["pi", r.choice(INT_LITS)], a  # 5 <op> col  (reflected operator)
+                if a[0] == "pi" and b[0] in ("li", "pi"):
+                    b = ["col", "ia"]
+                return [k, a, b]
             if k == "neg":
                 return ["neg", self.expr("int", d)]
             if k == "cast":
@@ -799,6 +830,11 @@ class TreeGen:
             if k == "add":
                 a, b = self.expr("str", d), self.expr("str", d)
                 if sa_str_typed(a) and sa_str_typed(b):
+                    x = r.random()
+                    if x < 0.15:
+                        b = ["ps", r.choice(STR_LITS)]
+                    elif x < 0.3 and b[0] != "ls":
+                        a = ["ps", r.choice(STR_LITS)]   # 'x' + col  (__radd__)
                     return ["add", a, b]
                 return ["concat", a, b]
             if k == "cast":
@@ -815,7 +851,13 @@ class TreeGen:
             if k == "cmp":
                 kind = self.pick([(6, "numeric"), (3, "str"), (3, "bool")])
                 if kind == "numeric":
-                    return [r.choice(CMP), self.numeric(d), self.numeric(d)]
+                    a, b = self.numeric(d), self.numeric(d)
+                    x = r.random()
+                    if x < 0.1:
+                        b = ["pi", r.choice(INT_LITS)]
+                    elif x < 0.2 and b[0] not in ("li", "ln"):
+                        a = ["pi", r.choice(INT_LITS)]    # 5 < col  ->  col > 5
+                    return [r.choice(CMP), a, b]
                 if kind == "str":
                     return [r.choice(CMP), self.expr("str", d), self.expr("str", d)]
                 op = r.choice(CMP) if r.random() < self.exotic * 4 else r.choice(["eq", "ne"])
@@ -830,6 +872,8 @@ class TreeGen:
                 return [r.choice(ISOPS), self.expr(t, d), self.expr(t, d)]
             if k == "like":
                 esc = r.choice([None, None, "/", "!"])
+                if r.random() < 0.45:
+                    return [r.choice(STROPS), self.expr("str", d), self.expr("str", d), esc]
                 return [r.choice(LIKES), self.expr("str", d), self.expr("str", d), esc]
             if k == "between":
                 if r.random() < self.exotic * 3:
@@ -891,7 +935,9 @@ class TreeGen:
 OPS = ["add", "sub", "mul", "truediv", "floordiv", "mod", "neg", "concat_op", "eq", "ne", "lt", "le", "gt", "ge",
        "is_", "is_not", "is_distinct_from", "is_not_distinct_from", "like_op", "not_like_op", "ilike_op",
        "not_ilike_op", "between_op", "not_between_op", "in_op", "not_in_op", "and_", "or_", "inv", "is_true",
-       "is_false", "comma_op", "_asbool"]
+       "is_false", "comma_op", "_asbool", "contains_op", "not_contains_op", "startswith_op", "not_startswith_op",
+       "endswith_op", "not_endswith_op", "icontains_op", "not_icontains_op", "istartswith_op", "not_istartswith_op",
+       "iendswith_op", "not_iendswith_op"]
 
 
 def lean_op(name):
